@@ -385,6 +385,9 @@ def no_shared_parameter_arrays(ctx, rule="R14.8"):
 
 
 def run(ctx):
+    from .C12 import bookkeeping
+
+    bookkeeping(ctx, rule="R14.9")  # len_scale / anis bookkeeping of set_len_anis, set_anis, set_angles (shared with C12)
     no_shared_parameter_arrays(ctx)
     from ..small import none_default_rule
 
